@@ -50,7 +50,7 @@
                           ScRel (Rel Ob)
      handle_write_event   IoHwConn (R connected) IoHwReq (R requests: [] ->
                           IoHwTry = _flush_some_if_lockable; before 8bcf05e: IoHwFlU = _flush_some WITHOUT the lock) IoHwTot (R total
-                          >= send_bytes) IoHwTry (try-acquire Ob) IoHwFlL
+                          >= send_bytes) IoHwTotH (R total > high watermark) IoHwTry (try-acquire Ob) IoHwFlL
                           IoHwNTot (R total < high watermark) IoHwNotify IoHwRel
                           IoHwExcW (W will_close in _flush_exception)
                           (the step IoHwFlU exists only in the pre-8bcf05e shape, p_unlocked = true)
@@ -168,7 +168,7 @@ Inductive iopc :=
 | IoHrConn | IoRecv | IoHrWConn
 | IoRcAcq | IoRcWc | IoRcCwf | IoRcItem | IoRcChk | IoRcSc (sc : scpc) | IoRcApp | IoRcApp2 | IoRcLen
 | IoRcAt (a : atpc) | IoRcRel | IoRcRelX
-| IoHwConn | IoHwReq | IoHwFlU (f : flst) | IoHwTot | IoHwTry | IoHwFlL (f : flst)
+| IoHwConn | IoHwReq | IoHwFlU (f : flst) | IoHwTot | IoHwTotH | IoHwTry | IoHwFlL (f : flst)
 | IoHwNTot | IoHwNotify | IoHwRel | IoHwRelX | IoHwExcW
 | IoHwCwf | IoHwTot2 | IoHwWCwf | IoHwWWc | IoHwWc
 | IoHc (h : hcpc) (eof : bool)
@@ -529,7 +529,8 @@ Definition io_step (s : shared) (i : iost) (e : env) : option (shared * iost * l
       | Some (s', FExc, l) => Some (s', goto IoHwExcW, l)
       | None => None
       end
-  | IoHwTot => Some (s, goto (if Z.leb (p_sb P) (total s) then IoHwTry else IoHwCwf), [LR ATotal])
+  | IoHwTot => Some (s, goto (if Z.leb (p_sb P) (total s) then IoHwTry else IoHwTotH), [LR ATotal])
+  | IoHwTotH => Some (s, goto IoHwCwf, [LR ATotal])   (* `or total > outbuf_high_watermark` (daf1a85): never, see the assumptions *)
   | IoHwTry =>
       if free (olock s) then Some (set_olock s (Some TIo), goto (IoHwFlL fl0), [LTry Ob true])
       else Some (s, goto IoHwCwf, [LTry Ob false])
